@@ -730,7 +730,9 @@ func yamlUnprintable(s string) bool {
 // or tab would need an explicit indentation indicator, which goccy
 // does not emit.
 func blockLiteralSafe(s string) bool {
-	if len(s) == 0 || s[0] == ' ' || s[0] == '\t' {
+	// The first content line decides: without one the block reads back as
+	// the empty string, and an indented one needs an indentation indicator.
+	if t := strings.TrimLeft(s, "\n"); t == "" || t[0] == ' ' || t[0] == '\t' {
 		return false
 	}
 	if strings.Contains(s, " \n") || strings.HasSuffix(s, " ") {
